@@ -120,6 +120,9 @@ func TestVerifC22(t *testing.T) {
 	fo := cfgs["ooo"]
 	fo.Name, fo.FastStartup = "ooo+faststart", true
 	cfgs["ooo+faststart"] = fo
+	fsn := cfgs["snap"]
+	fsn.Name, fsn.FastStartup = "faststart+snap", true
+	cfgs["faststart+snap"] = fsn
 	if r.Replay != "" {
 		var rp struct {
 			Config string   `json:"config"`
@@ -156,6 +159,23 @@ func TestVerifC22(t *testing.T) {
 		name := p.cfg + "@c22"
 		res := r.BFS(name, func() vx.Sys { return c22New(r, cfgs[p.cfg], name) }, p.depth)
 		t.Logf("C22 %s depth %d: states=%d transitions=%d", name, p.depth, res.States, res.Transitions)
+	}
+	// search from non-initial states: the highest reference belongs to a series that has an m-mapped
+	// chunk and was evicted / garbage-collected before a restart
+	starts := [][]string{
+		{"app/s1/F+1/f", "app/s2/F+1/f", "app/s2/F+160/f", "mmap", "app/s2/F+1/st", "staleevict", "reopen"},
+		{"app/s1/F+1/f", "app/s2/F+1/f", "app/s2/F+160/f", "mmap", "app/s2/F+1/st", "staleevict", "unclean"},
+		{"app/s1/F+1/f", "app/s2/F+1/f", "rotate", "rotate", "rotate", "app/s1/F+160/f", "cmphead", "reopen"},
+		{"app/s1/F+1/f", "app/s2/F+1/f", "tick", "app/s3/F+1/f", "app/s1/F+160/f", "cmphead", "unclean"},
+	}
+	for _, cn := range vx.Pick(r, []string{"faststart+snap", "faststart"}, []string{"faststart+snap", "faststart", "base", "ooo+faststart"}) {
+		if r.Expired() {
+			r.NotExhaustive("deadline before the non-initial-state search of " + cn)
+			break
+		}
+		name := cn + "@c22+starts"
+		res := r.BFSFrom(name, func() vx.Sys { return c22New(r, cfgs[cn], name) }, starts, vx.Pick(r, 2, 3))
+		t.Logf("C22 %s: states=%d transitions=%d", name, res.States, res.Transitions)
 	}
 	_ = fmt.Sprint
 }
